@@ -49,6 +49,10 @@ def cntp_axioms(s):
         z3.ForAll([nm, i, j], z3.Implies(z3.And(0 <= i, i <= j, j <= n), f(nm, i) <= f(nm, j)),
                   patterns=[z3.MultiPattern(f(nm, i), f(nm, j))]),
         z3.ForAll([nm, i], z3.Implies(z3.And(0 <= i, i <= n), f(nm, i) >= 0), patterns=[f(nm, i)]),
+        # (a consequence of the two lines above, stated to spare the solver the instantiation chain: strictly increasing on the
+        #  rows that carry the name)
+        z3.ForAll([nm, i, j], z3.Implies(z3.And(0 <= i, i < j, j <= n, col.at(i) == nm), f(nm, i) < f(nm, j)),
+                  patterns=[z3.MultiPattern(f(nm, i), f(nm, j))]),
         *pair_axioms())
 
 
@@ -88,6 +92,18 @@ def cache_ok(s, dct, count):
     return z3.And(cache_complete(s, dct, n), cache_sound(s, dct, n), counts_right(s, count, n))
 
 
+def strictness_is_derived():
+    """the strictness line of cntp_axioms follows from the step and the monotonicity lines alone (self-contained validity over
+    fresh symbols, re-proved on every run as a lemma of _make_cache)"""
+    f_ = z3.Function("f!sd", V, IntS, IntS)
+    c_ = z3.Function("col!sd", IntS, V)
+    n_, p_, q_ = z3.Ints("n!sd p!sd q!sd")
+    a_ = z3.Const("a!sd", V)
+    step = z3.ForAll([nm, i], z3.Implies(z3.And(0 <= i, i < n_), f_(nm, i + 1) == f_(nm, i) + z3.If(c_(i) == nm, 1, 0)))
+    mono = z3.ForAll([nm, i, j], z3.Implies(z3.And(0 <= i, i <= j, j <= n_), f_(nm, i) <= f_(nm, j)))
+    return z3.Implies(z3.And(step, mono, 0 <= p_, p_ < q_, q_ <= n_, c_(p_) == a_), f_(a_, p_) < f_(a_, q_))
+
+
 # ----------------------------------------------------------------------------- _make_cache
 def _mc_inv0():
     o = lambda L: L.old.self
@@ -124,7 +140,8 @@ MAKE_CACHE = Contract(
              ("counts", lambda o, n, r: counts_right(o.self, r.items[1], col_of(o.self).n))],
     loops={0: LoopSpec(anchor="enumerate(col)", invariants=_mc_inv0()),
            1: LoopSpec(anchor="count.items()", invariants=_mc_inv1())},
-    min_obligations=12, extra=dict(ENG, local_types=dict(dct=TCache, count=TCache)),
+    min_obligations=12, extra=dict(ENG, local_types=dict(dct=TCache, count=TCache),
+                                   lemmas=[("prefix-count-strictness-is-derived", strictness_is_derived)]),
     note="the third result (unique labels) is outside the contract: f-strings / numpy object arrays are opaque; "
          "get_index_unique is covered by the run-time check")
 
